@@ -93,13 +93,38 @@ pub fn arc_drop_slow<T: ?Sized, A: std::alloc::Allocator>(_a: &mut Arc<T, A>) {}
 /// `alloc::fmt::format` → empty string (names, log lines and error texts are not the
 /// subject of any property).
 pub fn fmt_format(_a: core::fmt::Arguments<'_>) -> String {
-    String::new()
+    // (non-empty: dropping an empty String coming out of a stub trips a spurious dealloc
+    // precondition of Kani's C runtime model in some harnesses)
+    String::from("f")
 }
 pub fn io_print(_a: core::fmt::Arguments<'_>) {}
+
+/// Clock model used by store_impl.rs / iterator.rs under `cfg(kani)` (hook H4, import lines
+/// only): a zero-sized instant; every duration is zero.  Time feeds only the time metrics,
+/// which no property mentions.  (With std's `Instant` inside `ActionOp::Exit` the enum's
+/// discriminant lives in the nanosecond niche and CBMC loses track of the variant of queue
+/// items with a symbolic payload; measured: iterator / channeled harnesses did not finish.)
+#[derive(Clone, Copy, Debug, PartialEq, Eq, PartialOrd, Ord)]
+pub struct Instant;
+impl Instant {
+    pub fn now() -> Instant {
+        Instant
+    }
+    pub fn elapsed(&self) -> std::time::Duration {
+        std::time::Duration::from_secs(0)
+    }
+    pub fn duration_since(&self, _earlier: Instant) -> std::time::Duration {
+        std::time::Duration::from_secs(0)
+    }
+}
 
 /// `Instant::now` → constant instant (durations feed only time metrics).
 pub fn instant_now() -> std::time::Instant {
     unsafe { core::mem::zeroed() }
+}
+/// the model instant, for harnesses that call the pipeline phases directly
+pub fn now_model() -> Instant {
+    Instant
 }
 
 /// `Instant::elapsed` -> zero (std's Timespec subtraction is recursive and is unwound to the
@@ -187,6 +212,9 @@ pub mod thread {
             JOINS = 0;
             STATE = [T_NONE; MAX_THREADS];
         }
+    }
+    pub fn joins() -> usize {
+        unsafe { JOINS }
     }
     pub fn spawned() -> usize {
         unsafe { N_THREADS }
